@@ -1,6 +1,6 @@
 /-
   PINS of property C11: the decision tokens of every item the property is anchored in
-  (properties.jsonl `anchors` + tools/anchor_extra.json), as they were in /repo at 32de816 when the
+  (properties.jsonl `anchors` + tools/anchor_extra.json), as they were in /repo at 770977e when the
   model was validated against the source.  Written by tools/pin_anchors.py; the right-hand sides are
   compared by the kernel with lean/Chrono/Extracted/Anchors.lean, which tools/extractors/anchors.py
   regenerates from /repo's working tree on every check.  A theorem that fails here means: anchored
@@ -37,6 +37,18 @@ theorem src_format_formatting_rs_fn_format_item : C11_src_format_formatting_rs_f
 /-- src/format/formatting.rs:fn write_rfc2822 -/
 theorem src_format_formatting_rs_fn_write_rfc2822 : C11_src_format_formatting_rs_fn_write_rfc2822 =
     ["v1", "&", "Write", "v2", "NaiveDateTime", "v3", "FixedOffset", "->", "v4", "Result", "v5", "v2", "year(", "if!(", "0", "..=", "9999", "contains(", "&", "v5", "return", "Err(", "v4", "Error", "v6", "default_locale(", "v1", "write_str(", "short_weekdays(", "v6", "v2", "weekday(", "num_days_from_sunday(", "as", "usize", "?", "v1", "write_str(", "\", \"", "?", "v7", "v2", "day(", "if", "v7", "<", "10", "v1", "write_char(", "b'0'", "+", "v7", "as", "u8", "as", "char", "?", "else", "write_hundreds(", "v1", "v7", "as", "u8", "?", "v1", "write_char(", "' '", "?", "v1", "write_str(", "short_months(", "v6", "v2", "month0(", "as", "usize", "?", "v1", "write_char(", "' '", "?", "write_hundreds(", "v1", "v5", "/", "100", "as", "u8", "?", "write_hundreds(", "v1", "v5", "%", "100", "as", "u8", "?", "v1", "write_char(", "' '", "?", "let(", "v8", "v9", "v10", "v2", "time(", "hms(", "write_hundreds(", "v1", "v8", "as", "u8", "?", "v1", "write_char(", "':'", "?", "write_hundreds(", "v1", "v9", "as", "u8", "?", "v1", "write_char(", "':'", "?", "v10", "v10", "+", "v2", "nanosecond(", "/", "1000000000", "write_hundreds(", "v1", "v10", "as", "u8", "?", "v1", "write_char(", "' '", "?", "OffsetFormat", "v11", "OffsetPrecision", "Minutes", "v12", "Colons", "None", "v13", "false", "v14", "Pad", "Zero", "format(", "v1", "v3"] := by decide +kernel
+
+/-- src/format/parse.rs:fn parse -/
+theorem src_format_parse_rs_fn_parse : C11_src_format_parse_rs_fn_parse =
+    ["<", "I", "B", ">", "v1", "&", "Parsed", "v2", "&", "str", "v3", "I", "->", "ParseResult", "<", ">", "I", "Iterator", "<", "Item", "B", ">", "B", "Borrow", "<", "Item", "<", ">>", "match", "parse_internal(", "v1", "v2", "v3", "Ok(", "\"\"", "=>", "Ok(", "Ok(", "v4", "=>", "Err(", "TOO_LONG", "Err(", "v5", "=>", "Err(", "v5"] := by decide +kernel
+
+/-- src/format/parse.rs:fn parse_and_remainder -/
+theorem src_format_parse_rs_fn_parse_and_remainder : C11_src_format_parse_rs_fn_parse_and_remainder =
+    ["<", "I", "B", ">", "v1", "&", "Parsed", "v2", "&", "str", "v3", "I", "->", "ParseResult", "<", "&", "str", ">", "I", "Iterator", "<", "Item", "B", ">", "B", "Borrow", "<", "Item", "<", ">>", "parse_internal(", "v1", "v2", "v3"] := by decide +kernel
+
+/-- src/format/parse.rs:fn parse_internal -/
+theorem src_format_parse_rs_fn_parse_internal : C11_src_format_parse_rs_fn_parse_internal =
+    ["<", "I", "B", ">", "v1", "&", "Parsed", "v2", "&", "str", "v3", "I", "->", "Result", "<", "&", "str", "ParseError", ">", "I", "Iterator", "<", "Item", "B", ">", "B", "Borrow", "<", "Item", "<", ">>", "v4", "!", "v5", "v6", "v7", "=>", "match", "v6", "Ok(", "v8", "v9", "=>", "v2", "v8", "v9", "Err(", "v6", "=>", "return", "Err(", "v6", "for", "v10", "in", "v3", "match", "*", "v10", "borrow(", "Item", "Literal(", "v11", "=>", "if", "v2", "len(", "<", "v11", "len(", "return", "Err(", "TOO_SHORT", "if", "!", "v2", "starts_with(", "v11", "return", "Err(", "INVALID", "v2", "&", "v2", "v11", "len(", "..", "Item", "OwnedLiteral(", "v11", "=>", "if", "v2", "len(", "<", "v11", "len(", "return", "Err(", "TOO_SHORT", "if", "!", "v2", "starts_with(", "&", "v11", "..", "return", "Err(", "INVALID", "v2", "&", "v2", "v11", "len(", "..", "Item", "Space(", "v12", "=>", "v2", "v2", "trim_start(", "Item", "OwnedSpace(", "v12", "=>", "v2", "v2", "trim_start(", "Item", "Numeric(", "v13", "v14", "=>", "Numeric", "*", "Setter", "fn(", "&", "Parsed", "i64", "->", "ParseResult", "<", ">", "let(", "v15", "v16", "v17", "usize", "bool", "Setter", "match", "*", "v13", "Year", "=>", "4", "true", "Parsed", "v18", "YearDiv100", "=>", "2", "false", "Parsed", "v19", "YearMod100", "=>", "2", "false", "Parsed", "v20", "IsoYear", "=>", "4", "true", "Parsed", "v21", "IsoYearDiv100", "=>", "2", "false", "Parsed", "v22", "IsoYearMod100", "=>", "2", "false", "Parsed", "v23", "Quarter", "=>", "1", "false", "Parsed", "v24", "Month", "=>", "2", "false", "Parsed", "v25", "Day", "=>", "2", "false", "Parsed", "v26", "WeekFromSun", "=>", "2", "false", "Parsed", "v27", "WeekFromMon", "=>", "2", "false", "Parsed", "v28", "IsoWeek", "=>", "2", "false", "Parsed", "v29", "NumDaysFromSun", "=>", "1", "false", "v30", "WeekdayFromMon", "=>", "1", "false", "v31", "Ordinal", "=>", "3", "false", "Parsed", "v32", "Hour", "=>", "2", "false", "Parsed", "v33", "Hour12", "=>", "2", "false", "Parsed", "v34", "Minute", "=>", "2", "false", "Parsed", "v35", "Second", "=>", "2", "false", "Parsed", "v36", "Nanosecond", "=>", "9", "false", "Parsed", "v37", "Timestamp", "=>", "usize", "MAX", "true", "Parsed", "v38", "Internal(", "v39", "=>", "match", "v39", "v40", "v2", "v2", "trim_start(", "v9", "if", "v16", "if", "v2", "starts_with(", "'-'", "v9", "try_consume!(", "v41", "number(", "&", "v2", "1", "..", "1", "usize", "MAX", "0", "checked_sub(", "v9", "ok_or(", "OUT_OF_RANGE", "?", "else", "if", "v2", "starts_with(", "'+'", "try_consume!(", "v41", "number(", "&", "v2", "1", "..", "1", "usize", "MAX", "else", "try_consume!(", "v41", "number(", "v2", "1", "v15", "else", "try_consume!(", "v41", "number(", "v2", "1", "v15", "set(", "v1", "v9", "?", "Item", "Fixed(", "v13", "=>", "Fixed", "*", "match", "v13", "&", "ShortMonthName", "=>", "v42", "try_consume!(", "v41", "short_month0(", "v2", "v1", "set_month(", "i64", "from(", "v42", "+", "1", "?", "&", "LongMonthName", "=>", "v42", "try_consume!(", "v41", "short_or_long_month0(", "v2", "v1", "set_month(", "i64", "from(", "v42", "+", "1", "?", "&", "ShortWeekdayName", "=>", "v43", "try_consume!(", "v41", "short_weekday(", "v2", "v1", "set_weekday(", "v43", "?", "&", "LongWeekdayName", "=>", "v43", "try_consume!(", "v41", "short_or_long_weekday(", "v2", "v1", "set_weekday(", "v43", "?", "&", "LowerAmPm", "|", "&", "UpperAmPm", "=>", "if", "v2", "len(", "<", "2", "return", "Err(", "TOO_SHORT", "v44", "match(", "v2", "as_bytes(", "0", "|", "32", "v2", "as_bytes(", "1", "|", "32", "b'a'", "b'm'", "=>", "false", "b'p'", "b'm'", "=>", "true", "v12", "=>", "return", "Err(", "INVALID", "v1", "set_ampm(", "v44", "?", "v2", "&", "v2", "2", "..", "&", "Nanosecond", "|", "&", "Nanosecond3", "|", "&", "Nanosecond6", "|", "&", "Nanosecond9", "=>", "if", "v2", "starts_with(", "'.'", "v45", "try_consume!(", "v41", "nanosecond(", "&", "v2", "1", "..", "v1", "set_nanosecond(", "v45", "?", "&", "Internal(", "InternalFixed", "v46", "InternalInternal", "Nanosecond3NoDot", "=>", "if", "v2", "len(", "<", "3", "return", "Err(", "TOO_SHORT", "v45", "try_consume!(", "v41", "nanosecond_fixed(", "v2", "3", "v1", "set_nanosecond(", "v45", "?", "&", "Internal(", "InternalFixed", "v46", "InternalInternal", "Nanosecond6NoDot", "=>", "if", "v2", "len(", "<", "6", "return", "Err(", "TOO_SHORT", "v45", "try_consume!(", "v41", "nanosecond_fixed(", "v2", "6", "v1", "set_nanosecond(", "v45", "?", "&", "Internal(", "InternalFixed", "v46", "InternalInternal", "Nanosecond9NoDot", "=>", "if", "v2", "len(", "<", "9", "return", "Err(", "TOO_SHORT", "v45", "try_consume!(", "v41", "nanosecond_fixed(", "v2", "9", "v1", "set_nanosecond(", "v45", "?", "&", "TimezoneName", "=>", "try_consume!(", "Ok(", "v2", "trim_start_matches(", "|", "v47", "char", "|", "!", "v47", "is_whitespace(", "&", "TimezoneOffsetColon", "|", "&", "TimezoneOffsetDoubleColon", "|", "&", "TimezoneOffsetTripleColon", "|", "&", "TimezoneOffset", "=>", "v48", "try_consume!(", "v41", "timezone_offset(", "v2", "trim_start(", "v41", "v49", "false", "false", "true", "v1", "set_offset(", "i64", "from(", "v48", "?", "&", "TimezoneOffsetColonZ", "|", "&", "TimezoneOffsetZ", "=>", "v48", "try_consume!(", "v41", "timezone_offset(", "v2", "trim_start(", "v41", "v49", "true", "false", "true", "v1", "set_offset(", "i64", "from(", "v48", "?", "&", "Internal(", "InternalFixed", "v46", "InternalInternal", "TimezoneOffsetPermissive", "=>", "v48", "try_consume!(", "v41", "timezone_offset(", "v2", "trim_start(", "v41", "v49", "true", "true", "true", "v1", "set_offset(", "i64", "from(", "v48", "?", "&", "RFC2822", "=>", "try_consume!(", "parse_rfc2822(", "v1", "v2", "&", "RFC3339", "=>", "try_consume!(", "parse_rfc3339_relaxed(", "v1", "v2", "Item", "Error", "=>", "return", "Err(", "BAD_FORMAT", "Ok(", "v2"] := by decide +kernel
 
 /-- src/format/parse.rs:fn parse_rfc2822 -/
 theorem src_format_parse_rs_fn_parse_rfc2822 : C11_src_format_parse_rs_fn_parse_rfc2822 =
@@ -94,6 +106,10 @@ theorem callee_src_format_formatting_rs_fn_write_hundreds : C11_callee_src_forma
 theorem callee_src_format_formatting_rs_fn_write_rfc3339 : C11_callee_src_format_formatting_rs_fn_write_rfc3339 =
     ["v1", "&", "Write", "v2", "NaiveDateTime", "v3", "FixedOffset", "v4", "SecondsFormat", "v5", "bool", "->", "v6", "Result", "v7", "v2", "date(", "year(", "if(", "0", "..=", "9999", "contains(", "&", "v7", "write_hundreds(", "v1", "v7", "/", "100", "as", "u8", "?", "write_hundreds(", "v1", "v7", "%", "100", "as", "u8", "?", "else", "write!(", "v1", "\"{:+05}\"", "v7", "?", "v1", "write_char(", "'-'", "?", "write_hundreds(", "v1", "v2", "date(", "month(", "as", "u8", "?", "v1", "write_char(", "'-'", "?", "write_hundreds(", "v1", "v2", "date(", "day(", "as", "u8", "?", "v1", "write_char(", "'T'", "?", "let(", "v8", "v9", "v10", "v2", "time(", "hms(", "v11", "v2", "nanosecond(", "if", "v11", ">=", "1000000000", "v10", "+=", "1", "v11", "-=", "1000000000", "write_hundreds(", "v1", "v8", "as", "u8", "?", "v1", "write_char(", "':'", "?", "write_hundreds(", "v1", "v9", "as", "u8", "?", "v1", "write_char(", "':'", "?", "v10", "v10", "write_hundreds(", "v1", "v10", "as", "u8", "?", "match", "v4", "SecondsFormat", "Secs", "=>", "SecondsFormat", "Millis", "=>", "write!(", "v1", "\".{:03}\"", "v11", "/", "1000000", "?", "SecondsFormat", "Micros", "=>", "write!(", "v1", "\".{:06}\"", "v11", "/", "1000", "?", "SecondsFormat", "Nanos", "=>", "write!(", "v1", "\".{:09}\"", "v11", "?", "SecondsFormat", "AutoSi", "=>", "if", "v11", "==", "0", "else", "if", "v11", "%", "1000000", "==", "0", "write!(", "v1", "\".{:03}\"", "v11", "/", "1000000", "?", "else", "if", "v11", "%", "1000", "==", "0", "write!(", "v1", "\".{:06}\"", "v11", "/", "1000", "?", "else", "write!(", "v1", "\".{:09}\"", "v11", "?", "SecondsFormat", "__NonExhaustive", "=>", "unreachable!(", "OffsetFormat", "v12", "OffsetPrecision", "Minutes", "v13", "Colons", "Colon", "v14", "v5", "v15", "Pad", "Zero", "format(", "v1", "v3"] := by decide +kernel
 
+/-- callee src/format/parse.rs:fn parse_rfc3339_relaxed -/
+theorem callee_src_format_parse_rs_fn_parse_rfc3339_relaxed : C11_callee_src_format_parse_rs_fn_parse_rfc3339_relaxed =
+    ["<", ">", "v1", "&", "Parsed", "v2", "&", "str", "->", "ParseResult", "<", "&", "str", ">", "DATE_ITEMS", "&", "Item", "<", ">", "&", "Item", "Numeric(", "Numeric", "Year", "Pad", "Zero", "Item", "Space(", "\"\"", "Item", "Literal(", "\"-\"", "Item", "Numeric(", "Numeric", "Month", "Pad", "Zero", "Item", "Space(", "\"\"", "Item", "Literal(", "\"-\"", "Item", "Numeric(", "Numeric", "Day", "Pad", "Zero", "TIME_ITEMS", "&", "Item", "<", ">", "&", "Item", "Numeric(", "Numeric", "Hour", "Pad", "Zero", "Item", "Space(", "\"\"", "Item", "Literal(", "\":\"", "Item", "Numeric(", "Numeric", "Minute", "Pad", "Zero", "Item", "Space(", "\"\"", "Item", "Literal(", "\":\"", "Item", "Numeric(", "Numeric", "Second", "Pad", "Zero", "Item", "Fixed(", "Fixed", "Nanosecond", "Item", "Space(", "\"\"", "v2", "parse_internal(", "v1", "v2", "DATE_ITEMS", "iter(", "?", "v2", "match", "v2", "as_bytes(", "first(", "Some(", "&", "b't'", "|", "&", "b'T'", "|", "&", "b' '", "=>", "&", "v2", "1", "..", "Some(", "v3", "=>", "return", "Err(", "INVALID", "None", "=>", "return", "Err(", "TOO_SHORT", "v2", "parse_internal(", "v1", "v2", "TIME_ITEMS", "iter(", "?", "v2", "v2", "trim_start(", "let(", "v2", "v4", "if", "v2", "len(", ">=", "3", "&&", "\"UTC\"", "as_bytes(", "eq_ignore_ascii_case(", "&", "v2", "as_bytes(", "..", "&", "v2", "3", "..", "0", "else", "v5", "timezone_offset(", "v2", "v5", "v6", "true", "false", "true", "?", "v1", "set_offset(", "i64", "from(", "v4", "?", "Ok(", "v2"] := by decide +kernel
+
 /-- callee src/format/parsed.rs:fn resolve_week_date -/
 theorem callee_src_format_parsed_rs_fn_resolve_week_date : C11_callee_src_format_parsed_rs_fn_resolve_week_date =
     ["v1", "i32", "v2", "u32", "v3", "Weekday", "v4", "Weekday", "->", "ParseResult", "<", "NaiveDate", ">", "if", "v2", ">", "53", "return", "Err(", "OUT_OF_RANGE", "v5", "NaiveDate", "from_yo_opt(", "v1", "1", "ok_or(", "OUT_OF_RANGE", "?", "v6", "1", "+", "v4", "days_since(", "v5", "weekday(", "as", "i32", "v3", "v3", "days_since(", "v4", "as", "i32", "v7", "v6", "+", "v2", "as", "i32", "-", "1", "*", "7", "+", "v3", "if", "v7", "<=", "0", "return", "Err(", "IMPOSSIBLE", "v5", "with_ordinal(", "v7", "as", "u32", "ok_or(", "IMPOSSIBLE"] := by decide +kernel
@@ -101,6 +117,10 @@ theorem callee_src_format_parsed_rs_fn_resolve_week_date : C11_callee_src_format
 /-- callee src/format/parsed.rs:fn resolve_year -/
 theorem callee_src_format_parsed_rs_fn_resolve_year : C11_callee_src_format_parsed_rs_fn_resolve_year =
     ["v1", "Option", "<", "i32", ">", "v2", "Option", "<", "i32", ">", "v3", "Option", "<", "i32", ">", "->", "ParseResult", "<", "Option", "<", "i32", ">>", "match(", "v1", "v2", "v3", "v1", "None", "None", "=>", "Ok(", "v1", "Some(", "v1", "v2", "v3", "Some(", "0", "..=", "99", "|", "Some(", "v1", "v2", "v3", "None", "=>", "if", "v1", "<", "0", "return", "Err(", "IMPOSSIBLE", "v4", "v1", "/", "100", "v5", "v1", "%", "100", "if", "v2", "unwrap_or(", "v4", "==", "v4", "&&", "v3", "unwrap_or(", "v5", "==", "v5", "Ok(", "Some(", "v1", "else", "Err(", "IMPOSSIBLE", "None", "Some(", "v2", "Some(", "v3", "0", "..=", "99", "=>", "if", "v2", "<", "0", "return", "Err(", "IMPOSSIBLE", "v1", "v2", "checked_mul(", "100", "and_then(", "|", "v6", "|", "v6", "checked_add(", "v3", "Ok(", "Some(", "v1", "ok_or(", "OUT_OF_RANGE", "?", "None", "None", "Some(", "v3", "0", "..=", "99", "=>", "Ok(", "Some(", "v3", "+", "if", "v3", "<", "70", "2000", "else", "1900", "None", "Some(", "v7", "None", "=>", "Err(", "NOT_ENOUGH", "v7", "v7", "Some(", "v7", "=>", "Err(", "OUT_OF_RANGE"] := by decide +kernel
+
+/-- callee src/format/parsed.rs:fn set_ampm -/
+theorem callee_src_format_parsed_rs_fn_set_ampm : C11_callee_src_format_parsed_rs_fn_set_ampm =
+    ["&", "self", "v1", "bool", "->", "ParseResult", "<", ">", "set_if_consistent(", "&", "self", "v2", "v1", "as", "u32"] := by decide +kernel
 
 /-- callee src/format/parsed.rs:fn set_day -/
 theorem callee_src_format_parsed_rs_fn_set_day : C11_callee_src_format_parsed_rs_fn_set_day =
@@ -121,6 +141,10 @@ theorem callee_src_format_parsed_rs_fn_set_minute : C11_callee_src_format_parsed
 /-- callee src/format/parsed.rs:fn set_month -/
 theorem callee_src_format_parsed_rs_fn_set_month : C11_callee_src_format_parsed_rs_fn_set_month =
     ["&", "self", "v1", "i64", "->", "ParseResult", "<", ">", "if!(", "1", "..=", "12", "contains(", "&", "v1", "return", "Err(", "OUT_OF_RANGE", "set_if_consistent(", "&", "self", "v2", "v1", "as", "u32"] := by decide +kernel
+
+/-- callee src/format/parsed.rs:fn set_nanosecond -/
+theorem callee_src_format_parsed_rs_fn_set_nanosecond : C11_callee_src_format_parsed_rs_fn_set_nanosecond =
+    ["&", "self", "v1", "i64", "->", "ParseResult", "<", ">", "if!(", "0", "..=", "999999999", "contains(", "&", "v1", "return", "Err(", "OUT_OF_RANGE", "set_if_consistent(", "&", "self", "v2", "v1", "as", "u32"] := by decide +kernel
 
 /-- callee src/format/parsed.rs:fn set_offset -/
 theorem callee_src_format_parsed_rs_fn_set_offset : C11_callee_src_format_parsed_rs_fn_set_offset =
@@ -158,9 +182,21 @@ theorem callee_src_format_scan_rs_fn_char : C11_callee_src_format_scan_rs_fn_cha
 theorem callee_src_format_scan_rs_fn_digits : C11_callee_src_format_scan_rs_fn_digits =
     ["v1", "&", "str", "->", "ParseResult", "<", "u8", "u8", ">", "v2", "v1", "as_bytes(", "if", "v2", "len(", "<", "2", "Err(", "TOO_SHORT", "else", "Ok(", "v2", "0", "v2", "1"] := by decide +kernel
 
+/-- callee src/format/scan.rs:fn nanosecond_fixed -/
+theorem callee_src_format_scan_rs_fn_nanosecond_fixed : C11_callee_src_format_scan_rs_fn_nanosecond_fixed =
+    ["v1", "&", "str", "v2", "usize", "->", "ParseResult", "<", "&", "str", "i64", ">", "let(", "v1", "v3", "number(", "v1", "v2", "v2", "?", "SCALE", "i64", "10", "0", "100000000", "10000000", "1000000", "100000", "10000", "1000", "100", "10", "1", "v3", "v3", "checked_mul(", "SCALE", "v2", "ok_or(", "OUT_OF_RANGE", "?", "Ok(", "v1", "v3"] := by decide +kernel
+
 /-- callee src/format/scan.rs:fn number -/
 theorem callee_src_format_scan_rs_fn_number : C11_callee_src_format_scan_rs_fn_number =
     ["v1", "&", "str", "v2", "usize", "v3", "usize", "->", "ParseResult", "<", "&", "str", "i64", ">", "assert!(", "v2", "<=", "v3", "v4", "v1", "as_bytes(", "if", "v4", "len(", "<", "v2", "return", "Err(", "TOO_SHORT", "v5", "0", "for(", "v6", "v7", "in", "v4", "iter(", "take(", "v3", "cloned(", "enumerate(", "if", "!", "v7", "is_ascii_digit(", "if", "v6", "<", "v2", "return", "Err(", "INVALID", "else", "return", "Ok(", "&", "v1", "v6", "..", "v5", "v5", "match", "v5", "checked_mul(", "10", "and_then(", "|", "v5", "|", "v5", "checked_add(", "v7", "-", "b'0'", "as", "i64", "Some(", "v5", "=>", "v5", "None", "=>", "return", "Err(", "OUT_OF_RANGE", "Ok(", "&", "v1", "v8", "v9", "min(", "v3", "v4", "len(", "..", "v5"] := by decide +kernel
+
+/-- callee src/format/scan.rs:fn short_or_long_month0 -/
+theorem callee_src_format_scan_rs_fn_short_or_long_month0 : C11_callee_src_format_scan_rs_fn_short_or_long_month0 =
+    ["v1", "&", "str", "->", "ParseResult", "<", "&", "str", "u8", ">", "LONG_MONTH_SUFFIXES", "&", "u8", "12", "b\"uary\"", "b\"ruary\"", "b\"ch\"", "b\"il\"", "b\"\"", "b\"e\"", "b\"y\"", "b\"ust\"", "b\"tember\"", "b\"ober\"", "b\"ember\"", "b\"ember\"", "let(", "v1", "v2", "short_month0(", "v1", "?", "v3", "LONG_MONTH_SUFFIXES", "v2", "as", "usize", "if", "v1", "len(", ">=", "v3", "len(", "&&", "v1", "as_bytes(", "..", "v3", "len(", "eq_ignore_ascii_case(", "v3", "v1", "&", "v1", "v3", "len(", "..", "Ok(", "v1", "v2"] := by decide +kernel
+
+/-- callee src/format/scan.rs:fn short_or_long_weekday -/
+theorem callee_src_format_scan_rs_fn_short_or_long_weekday : C11_callee_src_format_scan_rs_fn_short_or_long_weekday =
+    ["v1", "&", "str", "->", "ParseResult", "<", "&", "str", "Weekday", ">", "LONG_WEEKDAY_SUFFIXES", "&", "u8", "7", "b\"day\"", "b\"sday\"", "b\"nesday\"", "b\"rsday\"", "b\"day\"", "b\"urday\"", "b\"day\"", "let(", "v1", "v2", "short_weekday(", "v1", "?", "v3", "LONG_WEEKDAY_SUFFIXES", "v2", "num_days_from_monday(", "as", "usize", "if", "v1", "len(", ">=", "v3", "len(", "&&", "v1", "as_bytes(", "..", "v3", "len(", "eq_ignore_ascii_case(", "v3", "v1", "&", "v1", "v3", "len(", "..", "Ok(", "v1", "v2"] := by decide +kernel
 
 /-- callee src/naive/date/mod.rs:fn from_isoywd_opt -/
 theorem callee_src_naive_date_mod_rs_fn_from_isoywd_opt : C11_callee_src_naive_date_mod_rs_fn_from_isoywd_opt =
@@ -249,6 +285,10 @@ theorem callee_src_traits_rs_fn_hour12 : C11_callee_src_traits_rs_fn_hour12 =
 /-- callee src/weekday.rs:fn days_since -/
 theorem callee_src_weekday_rs_fn_days_since : C11_callee_src_weekday_rs_fn_days_since =
     ["&", "self", "v1", "Weekday", "->", "u32", "v2", "*", "self", "as", "u32", "v3", "v1", "as", "u32", "if", "v2", "<", "v3", "7", "+", "v2", "-", "v3", "else", "v2", "-", "v3"] := by decide +kernel
+
+/-- callee src/weekday.rs:fn num_days_from_monday -/
+theorem callee_src_weekday_rs_fn_num_days_from_monday : C11_callee_src_weekday_rs_fn_num_days_from_monday =
+    ["&", "self", "->", "u32", "self", "days_since(", "Weekday", "Mon"] := by decide +kernel
 
 /-- callee src/weekday.rs:fn num_days_from_sunday -/
 theorem callee_src_weekday_rs_fn_num_days_from_sunday : C11_callee_src_weekday_rs_fn_num_days_from_sunday =
